@@ -41,7 +41,11 @@ FinishMinres ==
          fullAltOk == fin.fullalt <= MR_ExactThr(cfg.f32) + 2 * cfg.lgk
          \* with a preconditioner P and a non-zero shift the recurrence solves (K + s P) x = b; that the result is then not the
          \* solution of (K + s I) x = b is reported under its own name (see known_findings.txt) and anything else as an error
-         f5 == Add(f4, (fin.finite /\ fin.err # NA) => (errOk \/ (cfg.pshift /\ altOk)), "error-above-stopping-tolerance")
+         \* (the code caps the iterations at n + 1 whatever max_iter says; a run that used them all never met its stopping rule: in
+         \*  floating point that happens for ill-conditioned K, MINRES does not re-orthogonalise - reported under its own name)
+         capped == fin.iters # NA /\ fin.iters >= cfg.n + 1
+         f5 == Add(f4, (fin.finite /\ fin.err # NA) => (errOk \/ (cfg.pshift /\ altOk)),
+                   IF capped THEN "not-converged-when-the-iteration-cap-n+1-is-reached" ELSE "error-above-stopping-tolerance")
          f5b == Add(f5, (fin.finite /\ fin.err # NA /\ cfg.pshift /\ altOk) => errOk, "preconditioned-shifted-system-solves-K+sP-not-K+sI")
          \* (demanded from floating point for condition numbers up to 100: lgk = lg(sqrt(kappa) + 1) <= 3460; MINRES does not
          \*  re-orthogonalise, and the code caps the iterations at n + 3)
